@@ -307,7 +307,10 @@ func (t *taskManager) submit(tasks []*task) error {
 		if currentTask.call.preProcessor != nil && !currentTask.skipPreHandler {
 			nInput, err := t.runWrapper(currentTask.ctx, currentTask.call.preProcessor, currentTask.input, currentTask.option...)
 			if err != nil {
-				return fmt.Errorf("run node[%s] pre processor fail: %w", currentTask.nodeKey, err)
+				// the failure of a node's state pre-handler is a failure of that node: like the
+				// post-handler's (waitOne) it is reported under the node's key
+				return wrapGraphNodeError(currentTask.nodeKey,
+					fmt.Errorf("run node[%s] pre processor fail: %w", currentTask.nodeKey, err))
 			}
 			currentTask.input = nInput
 		}
